@@ -53,13 +53,24 @@ MANIFEST = dict(
          'of any directory on the way exclude the folders and the files they name, wherever .gitignore stands in its '
          'listing; conversely a python file that no .gitignore at or above its directory names (and no ignore folder / '
          'except path covers) is yielded, whatever other .gitignore files the tree holds (separator-aware test = '
-         'ancestor-or-self on name chains); every tree position is yielded at most once. Tie: translator (accepts only '
+         'ancestor-or-self on name chains); every tree position is yielded at most once. Project._search_func: the '
+         'translator transcribes the file branch of the step-1 loop statement by statement (where file_ios.append '
+         'stands), the model executes the transcription, and over it: search_scans_every_file (every file the walk '
+         'yields is handed to step 2, named like the search word or not), search_complete (within the parse limit every '
+         'definition with the requested spelling and type in every yielded file is among the results), '
+         'search_modules_complete (every module / package so named), with a kernel-checked witness that the append in '
+         'the else-branch of the file-name test loses the definitions of a same-named file. Tie: translator (accepts only '
          'the fixed source shape) + correspondence on generated project trees on disk + direct completeness / negative '
-         'oracles from generator knowledge; the three former defects stay in the run as fixed probes.',
+         'oracles from generator knowledge; the three former defects stay in the run as fixed probes. Stream clash: '
+         'project trees in which file names and identifiers collide (foo.py defining foo / foo_x / class foo, packages, '
+         'stubs), judged by an oracle that reads every definition (path, line, column, name, type) off the files with '
+         "python's ast.",
     note='Modelled not verified: os.walk / os.scandir (listing order is a parameter, the shim and the real order are '
          'both exercised), pathlib suffix (checked stream), the regex pre-filter (parameter `mentions`), '
          'get_module_names (the generator supplies the definitions it wrote), str.lower (parameter), step 3 of '
-         'Project._search_func beyond the project directory, dotted search strings (inference).',
+         'Project._search_func beyond the project directory, dotted search strings (inference; only the negative '
+         'clause is judged on them), stub-to-python conversion of module hits (trees with .pyi files are judged by the '
+         'direct oracle only).',
     technique='Lean 4 proof over hand-written model + translator-generated constants + differential correspondence',
     design='5.C19')
 LEAN_TARGETS = ['JediModel.Props.C19', 'JediModel.Drivers.C19']
@@ -1398,6 +1409,8 @@ def run_driver_chunks(reqs, jobs=6, min_split=600):
     whole trees, so split (round-robin: the heavy requests are neighbours) already for fewer"""
     if len(reqs) < min_split:
         return common.run_driver('C19', reqs)
+    if len(reqs) >= 4000:
+        jobs = max(jobs, 10)
     from concurrent.futures import ThreadPoolExecutor
     chunks = [reqs[k::jobs] for k in range(jobs)]
     with ThreadPoolExecutor(jobs) as ex:
